@@ -83,8 +83,8 @@ H_boot(s, e) ==
             <<s.run \in {"no", "run"}, "boot.after run() ended">>,
             <<s.gen = 0 \/ s.ph = "hooked", "G5.boot before the previous generation is down">>,
             <<s.gen = 0 \/ s.disc # "open", "G5.responder of the previous generation still open">>,
-            <<s.gen = 0 \/ RestartWanted(s), "R1.generation without restart request">>,
-            <<~s.shutDone, "S1.generation after shutdown() returned">> >>,
+            <<~s.shutDone, "S1.generation after shutdown() returned">>,
+            <<s.gen = 0 \/ RestartWanted(s), "R1.generation without restart request">> >>,
       {NewGen(s, e.g)})
 
 H_create(s, e) ==
@@ -113,9 +113,13 @@ H_if_begin(s, e) ==
       {[s EXCEPT !.thr[e.i] = "run"]})
 
 H_bind(s, e) ==
-  Chk(s, << <<e.g = s.gen /\ s.thr[e.i] = "run" /\ s.ifs[e.i] = "none", "bind.state">>,
+  Chk(s, << <<e.g = s.gen /\ s.thr[e.i] = "run" /\ s.ifs[e.i] \in {"none", "failed"}, "bind.state">>,
             <<s.ph \in {"ready", "up"} /\ AllMods(s, "started"), "G1.listening without started modules">> >>,
       {[s EXCEPT !.ifs[e.i] = "bound"]})
+
+H_bindfail(s, e) ==
+  Chk(s, << <<e.g = s.gen /\ s.thr[e.i] = "run" /\ s.ifs[e.i] \in {"none", "failed"}, "bindfail.state">> >>,
+      {[s EXCEPT !.ifs[e.i] = "failed"]})
 
 H_serve_b(s, e) ==
   Chk(s, << <<e.g = s.gen /\ s.ifs[e.i] = "bound", "serve_b.state">>,
@@ -134,7 +138,7 @@ H_close(s, e) ==
 
 H_if_end(s, e) ==
   Chk(s, << <<e.g = s.gen /\ s.thr[e.i] = "run", "if_end.state">>,
-            <<s.ifs[e.i] \in {"none", "closed", "crashclosed"}, "if_end.thread ends leaving its socket open">> >>,
+            <<s.ifs[e.i] \in {"none", "failed", "closed", "crashclosed"}, "if_end.thread ends leaving its socket open">> >>,
       {[s EXCEPT !.thr[e.i] = "end"]})
 
 H_ish_b(s, e) == {IF e.g = s.gen THEN [s EXCEPT !.ishReq = @ \cup {e.i}] ELSE s}
@@ -145,7 +149,7 @@ H_report(s, e) ==
                  <<s.rep[e.i] = "none", "G3.reported twice">>,
                  <<e.i \notin Listening(s), "G3.a listening interface reported as not started">>,
                  <<e.kind = "timeout" => e.vt - s.readyAt >= StartTimeout - 1, "G3.time-out reported before 12 s">>,
-                 <<e.kind = "fail" => s.thr[e.i] = "end", "G3.failure reported of a thread that still runs">> >>,
+                 <<e.kind = "fail" => s.ifs[e.i] \in {"failed", "closed", "crashclosed"}, "G3.failure reported of an interface that did not fail">> >>,
            {[s EXCEPT !.rep[e.i] = e.kind]})
   ELSE Chk(s, << <<e.g = s.gen /\ s.ph = "up" /\ ThreadsGone(s), "report.phase">>,
                  <<s.ifs[e.i] = "crashclosed" /\ e.kind = "fail", "report.a serving loop that did not fail">> >>,
@@ -179,14 +183,14 @@ H_disc_new(s, e) ==
 
 H_announce(s, e) ==
   Chk(s, << <<(e.g = s.gen /\ s.disc = "open") \/ e.g \in s.oldDisc, "announce.by a responder that is closed / gone">>,
-            <<e.p \in Listening(s) \/ e.p \in s.crashInj, "G2.announced a port that does not listen">> >>, {s})
+            <<e.g \in s.oldDisc \/ e.p \in Listening(s) \/ e.p \in s.crashInj, "G2.announced a port that does not listen">> >>, {s})
 
 H_disc_end(s, e) ==
   Chk(s, << <<e.g # s.gen \/ s.disc = "closed", "disc_end.responder thread ends by itself">> >>, {s})
 
 H_notify(s, e) ==
   Chk(s, << <<e.what = "INIT" => s.ph \in {"init", "hooked"}, "notify.initializing">>,
-            <<e.what = "READY" => (s.ph = "up" /\ s.disc = "open"), "notify.ready before the node serves">>,
+            <<e.what = "READY" => (s.ph = "up" /\ s.disc # "none"), "notify.ready before the node serves">>,
             <<e.what = "RELOADING" => (s.ph = "stopped" /\ RestartWanted(s)), "notify.reloading without restart request">>,
             <<e.what = "STOPPING" => (s.ph = "stopped" /\ (~s.pend \/ s.shutAny)), "notify.stopping although restarting">> >>, {s})
 
@@ -207,6 +211,7 @@ H_mdown(s, e) ==
 H_hook(s, e) ==
   Chk(s, << <<e.g = s.gen /\ s.ph = "stopped" /\ AllMods(s, "down"), "hook.phase">>,
             <<s.hooks = 0, "G5.hook called twice">>,
+            <<~s.shutDone, "S1.hook after shutdown() returned">>,
             <<RestartWanted(s), "R1.hook without restart request">> >>,
       {[s EXCEPT !.ph = "hooked", !.hooks = 1]})
 
@@ -286,6 +291,7 @@ Step(s, e) ==
     [] e.ev = "poll" -> H_poll(s, e)
     [] e.ev = "if_begin" -> H_if_begin(s, e)
     [] e.ev = "bind" -> H_bind(s, e)
+    [] e.ev = "bindfail" -> H_bindfail(s, e)
     [] e.ev = "serve_b" -> H_serve_b(s, e)
     [] e.ev = "serve_e" -> H_serve_e(s, e)
     [] e.ev = "close" -> H_close(s, e)
@@ -311,5 +317,5 @@ Step(s, e) ==
     [] e.ev = "sig_e" -> H_sig_e(s, e)
     [] e.ev = "crash" -> H_crash(s, e)
     [] e.ev = "quiet" -> H_quiet(s, e)
-    [] OTHER -> {s}          \* hints (bindfail, ish_e, restarting, sig_sent, ...)
+    [] OTHER -> {s}          \* hints (ish_e, restarting, sig_sent, ...)
 =============================================================================
